@@ -40,7 +40,9 @@ CONSTANTS
     Routes, DTokens, GTokens, OTokens, Extras,
     \* TLS session resumption
     Tickets,                \* BOOLEAN: the server issues TLS 1.3 session tickets (crypto/tls default; the code as shipped)
-    Changes, Presents       \* subsets of {"none","revoke"} and {"same","nocert"} (see section 4)
+    Changes, Presents,      \* subsets of {"none","revoke"} and {"same","nocert"} (see section 4)
+    \* sequences of requests by different accounts on ONE gateway (section 5)
+    Memory                  \* BOOLEAN: FALSE = the router keeps nothing between requests (the code as shipped)
 
 Accounts      == {"X", "Y"}                 \* CN values that are well formed akash account addresses
 SerialUniverse == {"s1", "s2"}
@@ -251,6 +253,39 @@ ResumePaths == { p \in Paths : p.route = "lstatus" /\ p.gseq = "own" /\ p.oseq =
 ResumeCases == { k \in [kind : {"resume"}, cert : ScopeCertUniverse, reg : ScopeRegs, change : Changes,
                         present : Presents, path : ResumePaths] :
                     CertFor(k.cert, k.reg) /\ k.reg["Y/s1"] = None /\ k.reg["X/s1"].first \in {"-", "same"} }
+
+(***************************************************************************************************************)
+(* (5) HISTORY: a sequence of requests, by different authenticated accounts, on ONE running gateway.              *)
+(* The statement's second sentence holds for every request whatever the gateway has served before: the oracle is   *)
+(* stateless, the system it is applied to need not be.  A "seq" case is a registry and a sequence of steps         *)
+(* [cert, path]; every step is its own TLS connection.  The shipped router keeps nothing between requests          *)
+(* (Memory = FALSE: step k is served exactly like the single case).  Memory = TRUE describes a router that          *)
+(* remembers, per URL coordinates (dseq, gseq, oseq) -- NOT per owner --, the lease id it resolved first           *)
+(* (seeded change C09-4); it exists only as a discrimination test (MC_memory.cfg must fail SeqSound).              *)
+(***************************************************************************************************************)
+IsLeaseRoute(p)   == p.route # "manifest"
+Coords(p)         == <<p.dseq, p.gseq, p.oseq>>
+Resolves(st, reg) == AcceptedAs(st.cert, reg) /\ IsLeaseRoute(st.path) /\ WellFormedPath(st.path)
+
+OwnerAt(steps, reg, k) ==
+    IF ~Memory \/ ~IsLeaseRoute(steps[k].path) THEN steps[k].cert.cn
+    ELSE LET earlier == { j \in 1..k : Resolves(steps[j], reg) /\ Coords(steps[j].path) = Coords(steps[k].path) } IN
+         IF earlier = {} THEN steps[k].cert.cn
+         ELSE steps[CHOOSE j \in earlier : \A i \in earlier : j <= i].cert.cn
+ServedAt(steps, reg, k) ==
+    IF ~AcceptedAs(steps[k].cert, reg) THEN <<>> ELSE Route(OwnerAt(steps, reg, k), steps[k].path)
+
+\* two tenants with genuine certificates of their own, the same URL coordinates, every pair of scoped routes, both orders
+SeqReg   == [id \in RegIds |-> CASE id = "X/s1" -> [state |-> "valid", key |-> "k1", window |-> "ok", usage |-> "client", first |-> "same"]
+                                  [] id = "X/s2" -> None [] OTHER -> Second]
+GenuineOf(a) == [cn |-> a, first |-> "same", issuer |-> "self", serial |-> "s1", key |-> SeqReg[RegId(a, "s1")].key,
+                 window |-> "ok", usage |-> "client", chainLen |-> 1, der |-> "onchain", holds |-> TRUE]
+SeqPaths == { p \in Paths : p.dseq \in {"own", "other"} /\ p.gseq = "own" /\ p.oseq = "own" /\ p.extra = "none" }
+SeqCase(a, b, p, q) == [kind |-> "seq", reg |-> SeqReg,
+                        steps |-> << [cert |-> GenuineOf(a), path |-> p], [cert |-> GenuineOf(b), path |-> q],
+                                     [cert |-> GenuineOf(a), path |-> q] >>]
+SeqCases == { SeqCase(t[1], t[2], t[3], t[4]) :
+                t \in { u \in {"X", "Y"} \X {"X", "Y"} \X SeqPaths \X SeqPaths : u[1] # u[2] /\ u[3].dseq = u[4].dseq } }
 
 (***************************************************************************************************************)
 (* THE PROPERTY, parametrised by an outcome.  J1 instantiates it with the outcome the transcribed procedure     *)
